@@ -81,18 +81,92 @@ fn classify(name: &str) -> NameClass {
         let ok = (first.is_ascii_alphabetic() || first == '_') && ch.all(|c| c.is_ascii_alphanumeric() || c == '_');
         return if ok { NameClass::MustAccept } else { NameClass::MustRefuse };
     }
-    // non-ASCII: letters are a don't-care, anything the pools list as bad must be refused
-    if BAD_FN.contains(&name) {
-        NameClass::MustRefuse
-    } else if name.chars().all(|c| c.is_alphanumeric() || c == '_') {
+    // non-ASCII: a name that is an identifier under UAX #31 (the reading the code follows) but not
+    // under the grammar's ASCII-only IDENT is a don't-care; a name that is an identifier under
+    // neither reading (e.g. one that starts with a combining mark or a middle dot) must be refused
+    use unicode_xid::UnicodeXID;
+    let mut ch = name.chars();
+    let first = ch.next().unwrap();
+    if (first == '_' || first.is_xid_start()) && ch.all(|c| c.is_xid_continue()) {
         NameClass::DontCare
     } else {
         NameClass::MustRefuse
     }
 }
 
-pub fn generate(seed: u64, idx: u64) -> History {
+/// characters random names are spelled from: identifier characters, near misses, and the
+/// first-character classes that differ between "may start" and "may continue" an identifier
+const PALETTE: [char; 30] = [
+    'a', 'b', 'Z', '_', '_', '1', '9', 'x', 'q', '0', ' ', '-', '.', '(', '\t', '\u{e9}', '\u{540d}', '\u{301}', '\u{b7}',
+    '\u{203f}', '\u{2163}', '\u{3007}', '\u{200d}', '\u{1F600}', '\u{a0}', '\u{2013}', '$', '\'', 'k', 'e',
+];
+
+fn random_name(rng: &mut Rng) -> String {
+    let n = 1 + rng.usize(5);
+    (0..n).map(|_| *rng.pick(&PALETTE)).collect()
+}
+
+/// Growth-and-sweep histories: tables grown well past small sizes, then every name tried again.
+fn generate_bulk(rng: &mut Rng, thorough: bool) -> History {
+    let max = if thorough { 300 } else { 90 };
+    let n = 10 + rng.usize(max);
+    let mut uid = 5000;
+    let mut next = || {
+        uid += 1;
+        uid
+    };
+    let mut ops = vec![];
+    let kind = rng.below(4); // 0 rules, 1 functions, 2 symbols, 3 mixed
+    let mut rule_names: Vec<String> = vec![];
+    let mut fn_names: Vec<String> = vec![];
+    // growth
+    let mut i = 0;
+    while i < n {
+        let batch = if rng.chance(1, 3) { 1 + rng.usize(40.min(n - i)) } else { 1 };
+        let k = if kind == 3 { rng.below(3) } else { kind };
+        match k {
+            0 => {
+                let names: Vec<(String, i64)> = (0..batch).map(|j| (format!("bulk rule {}", i + j), next())).collect();
+                rule_names.extend(names.iter().map(|x| x.0.clone()));
+                if batch == 1 { ops.push(BOp::Rule(names[0].0.clone(), names[0].1)) } else { ops.push(BOp::Rules(names)) }
+            }
+            1 => {
+                let names: Vec<(String, i64)> = (0..batch).map(|j| (format!("bulk_fn_{}", i + j), next())).collect();
+                fn_names.extend(names.iter().map(|x| x.0.clone()));
+                if batch == 1 { ops.push(BOp::Func(names[0].0.clone(), names[0].1)) } else { ops.push(BOp::Funcs(names)) }
+            }
+            _ => {
+                // tables of very different sizes over one pool of 60 names: overlaps are certain
+                let names: Vec<(String, i64)> = (0..batch).map(|_| (format!("bulk_sym_{}", rng.below(60)), next())).collect();
+                if batch == 1 { ops.push(BOp::Symbol(names[0].0.clone(), names[0].1)) } else { ops.push(BOp::Symbols(rng.below(3) as u8, names)) }
+            }
+        }
+        i += batch;
+    }
+    // sweep: every name once more, in random order (each must be refused); a few inside batches
+    let mut sweep: Vec<(bool, String)> = rule_names.iter().map(|n| (true, n.clone())).chain(fn_names.iter().map(|n| (false, n.clone()))).collect();
+    for i in (1..sweep.len()).rev() {
+        let j = rng.usize(i + 1);
+        sweep.swap(i, j);
+    }
+    sweep.truncate(if thorough { 120 } else { 50 });
+    for (is_rule, name) in sweep {
+        let fresh = next();
+        match (is_rule, rng.chance(1, 4)) {
+            (true, false) => ops.push(BOp::Rule(name, fresh)),
+            (true, true) => ops.push(BOp::Rules(vec![(format!("fresh rule {fresh}"), fresh), (name, next())])),
+            (false, false) => ops.push(BOp::Func(name, fresh)),
+            (false, true) => ops.push(BOp::Funcs(vec![(format!("fresh_fn_{fresh}"), fresh), (name, next())])),
+        }
+    }
+    History { ops, suspend_seed: None }
+}
+
+pub fn generate(seed: u64, idx: u64, thorough: bool) -> History {
     let mut rng = Rng::new(seed);
+    if idx >= 200 && rng.chance(1, 10) {
+        return generate_bulk(&mut rng, thorough);
+    }
     // now and then a long history with many distinct names (capacity-like limits would show here)
     let long = rng.chance(1, 12);
     let n = if long { 20 + rng.usize(60) } else { 1 + rng.usize(12) };
@@ -118,7 +192,7 @@ pub fn generate(seed: u64, idx: u64) -> History {
             5 => rng.pick(&RESERVED).to_string(),
             6 | 7 => rng.pick(&BAD_FN).to_string(),
             8 => rng.pick(&DONTCARE_FN).to_string(),
-            _ => rng.pick(&GOOD_FN).to_string(),
+            _ => random_name(rng),
         }
     };
     for i in 0..n {
